@@ -6,6 +6,8 @@ def _agree(rec):
          any                            no prediction (the model is stricter than the code here, or the entry point is observed only)
        A case whose verdict already fails is reported through the verdict, not as a disagreement."""
     m, i = rec["model"], rec["impl"]
+    if str(rec.get("idx", "")).startswith("#"):
+        return True          # comment line of a replay file (verif_lib.read_lines keeps it as a pseudo-case)
     if rec["verdict"].startswith("fails"):
         return True
     if m == "any" or m.startswith("skip"):
